@@ -297,7 +297,8 @@ def run(ctx):
                         ctx.report("C15-single-origin", "template-location-passed/" + name.rsplit("::", 1)[-1],
                                    "a sub-template is expanded with the template's own location", where_of(f, t))
     if n_sites < 6:
-        ctx.report("C15-single-origin", "floor", "expected >= 6 data-locating sites in the expander, found %d" % n_sites)
+        ctx.undecided("C15-single-origin", "floor", "expected >= 6 data-locating sites in the expander, found %d (the expander was restructured: "
+                      "its sites are no longer where this rule looks)" % n_sites)
     # the transformer passes the location of the macro use
     tr = fb.find("parser::macros::UserDefinedTransformer::transform")
     ptr = Prov(tr)
